@@ -57,7 +57,12 @@ Fixpoint ksplit (s : key) (l : list key) : list key * list key :=
 
 (* ---------------------------------------------------------------- the heap of Timer objects *)
 Record tobj := mkT { o_seq : Z; o_exp : Z; o_iv : Z }.
-Definition o_repeat (o : tobj) : bool := 0 <? o_iv o.       (* repeat_ = interval > 0.0 *)
+(* The interval field encodes Timer::repeat_ and the delta Timer::restart adds:
+     o_iv <  0 : repeat_ = false (runAt / runAfter, or an interval <= 0.0)
+     o_iv >= 0 : repeat_ = true (interval > 0.0) and o_iv = the delta addTime(now, interval_) adds, i.e.
+                 static_cast<int64_t>(interval_ * kMicroSecondsPerSecond) microseconds -- which is 0 for an
+                 interval below one microsecond: such a repeater is re-inserted under the batch instant itself *)
+Definition o_repeat (o : tobj) : bool := 0 <=? o_iv o.
 Definition heap_t := list (Z * tobj).
 Fixpoint hget (a : Z) (h : heap_t) : option tobj :=
   match h with [] => None | (b, o) :: r => if a =? b then Some o else hget a r end.
